@@ -361,3 +361,52 @@ def gaussian_catalogue(d, rng=None, size=None):
 
 
 HBARS = [(1, 2, 1, 1, 0.5), (2, 1, 2, 1, 2.0), (8, 1, 4, 1, 8.0)]      # hbar num, den, sqrt(2 hbar) num, den, float
+
+
+# ----------------------------------------------------------------------------------------------------------------
+# fermionic lattice
+def fermi_record(g):
+    base = '[name |-> "%s", kind |-> "%s", modes |-> <<%s>>, ' % (g["name"], g["kind"], ", ".join(map(str, g["modes"])))
+    if g["kind"] == "passive":
+        return base + "U |-> %s, c |-> %s, s |-> %s, sp |-> %s, sm |-> %s, q |-> 0]" % (tla_qmat(g["U"]), tla_q(Q0), tla_q(Q0), tla_q(Q0), tla_q(Q0))
+    return base + "U |-> <<>>, c |-> %s, s |-> %s, sp |-> %s, sm |-> %s, q |-> %d]" % (tla_q(g["c"]), tla_q(g["s"]), tla_q(g.get("sp", Q0)), tla_q(g.get("sm", Q0)), g.get("q", 0))
+
+
+HALF_ANGLES = {"pi/4": (q(ring(0, 1), 2), q(ring(0, 1), 2), np.pi / 4), "atan(4/3)": (q(ring(3), 5), q(ring(4), 5), np.arctan2(4.0, 3.0)),
+               "pi/2": (Q0, Q1, np.pi / 2), "atan(3/4)": (q(ring(4), 5), q(ring(3), 5), np.arctan2(3.0, 4.0))}
+
+
+def fermi_catalogue(d, rng=None, size=None, with_cphase=False):
+    gates = []
+    for i in range(d - 1):
+        for th in ("pi/4", "atan(4/3)", "pi/2"):
+            for k in range(4):
+                pg = _from_passive(beamsplitter(i, i + 1, th, k))
+                gates.append({"name": pg["name"], "kind": "passive", "modes": (i, i + 1), "U": pg["P"], "mk": pg["mk"], "gaussian": True})
+        for key, (c, s, half) in HALF_ANGLES.items():
+            for k in range(4):
+                sm = qmul_unit(k, q(rneg(s[0]), s[1]))          # - e^{i phi} sin(r/2)
+                sp = qmul_unit(-k % 4, s)                        # + e^{-i phi} sin(r/2)
+                gates.append({"name": f"Squeezing2(r=2*{key},{k}pi/2)", "kind": "sq2", "modes": (i, i + 1), "c": c, "s": s, "sm": sm, "sp": sp, "gaussian": True,
+                              "mk": lambda pq, r=2 * half, phi=k * np.pi / 2: pq.Squeezing2(r=r, phi=phi)})
+            gates.append({"name": f"IsingXX({key})", "kind": "xx", "modes": (i, i + 1), "c": c, "s": s, "gaussian": True,
+                          "mk": lambda pq, phi=half: pq.fermionic.IsingXX(phi=phi)})
+        if with_cphase:
+            for qq in (1, 2, 3):
+                gates.append({"name": f"ControlledPhase({qq}pi/2)", "kind": "cphase", "modes": (i, i + 1), "c": Q0, "s": Q0, "q": qq, "gaussian": False,
+                              "mk": lambda pq, phi=qq * np.pi / 2: pq.fermionic.ControlledPhase(phi=phi)})
+    for i in range(d):
+        for k8 in range(1, 8):
+            pg = _from_passive(phaseshifter(i, k8))
+            gates.append({"name": pg["name"], "kind": "passive", "modes": (i,), "U": pg["P"], "mk": pg["mk"], "gaussian": True})
+    if d >= 3:
+        for start in range(d - 2):
+            pg = _from_passive(interferometer((start, start + 1, start + 2), "perm"))
+            gates.append({"name": pg["name"], "kind": "passive", "modes": (start, start + 1, start + 2), "U": pg["P"], "mk": pg["mk"], "gaussian": True})
+    for i in range(d - 1):
+        for w in ("hadamard", "rot345", "phaseperm"):
+            pg = _from_passive(interferometer((i, i + 1), w))
+            gates.append({"name": pg["name"], "kind": "passive", "modes": (i, i + 1), "U": pg["P"], "mk": pg["mk"], "gaussian": True})
+    if rng is not None and size is not None and len(gates) > size:
+        gates = rng.sample(gates, size)
+    return gates
